@@ -1,10 +1,71 @@
 package props
 
 import (
+	"hash/fnv"
 	"regexp"
 	"runtime"
+	"sort"
+	"strings"
 )
 
 var digitsRe = regexp.MustCompile(`\d+`)
 
 func runtimeGosched() { runtime.Gosched() }
+
+func sortStrings(s []string) { sort.Strings(s) }
+
+func hashStr(s string) uint64 {
+	h := fnv.New64a()
+	h.Write([]byte(s))
+	return h.Sum64()
+}
+
+// raceAccessFuncs returns, for each of the two accesses of a race-detector
+// report, the innermost function that is not in the Go runtime.
+func raceAccessFuncs(rep string) []string {
+	var out []string
+	lines := strings.Split(rep, "\n")
+	for i := 0; i < len(lines); i++ {
+		l := strings.TrimSpace(lines[i])
+		if strings.HasPrefix(l, "Read at") || strings.HasPrefix(l, "Write at") || strings.HasPrefix(l, "Previous read at") || strings.HasPrefix(l, "Previous write at") ||
+			strings.HasPrefix(l, "Atomic read at") || strings.HasPrefix(l, "Atomic write at") || strings.HasPrefix(l, "Previous atomic") {
+			fn := ""
+			for j := i + 1; j < len(lines); j++ {
+				t := strings.TrimSpace(lines[j])
+				if t == "" {
+					break
+				}
+				if strings.HasPrefix(t, "/") || !strings.Contains(t, "(") {
+					continue // file:line
+				}
+				if strings.HasPrefix(t, "runtime.") || strings.HasPrefix(t, "internal/") {
+					continue
+				}
+				fn = t
+				break
+			}
+			out = append(out, fn)
+		}
+	}
+	return out
+}
+
+// raceBothIn reports whether both accesses of the report are in functions containing sub.
+func raceBothIn(rep string, subs ...string) bool {
+	fs := raceAccessFuncs(rep)
+	if len(fs) < 2 {
+		return false
+	}
+	for _, f := range fs[:2] {
+		ok := false
+		for _, s := range subs {
+			if strings.Contains(f, s) {
+				ok = true
+			}
+		}
+		if !ok {
+			return false
+		}
+	}
+	return true
+}
